@@ -1175,15 +1175,571 @@ Definition simple_types : list (Z * Z) :=
 
 Lemma mach_size_types t : 0 < mach_size t -> exists c1 c2, t = [c1; c2] /\ In (c1, c2) simple_types.
 Proof.
-  unfold mach_size. intros H. destruct t as [|c1 [|c2 [|c3 u]]]; cbv iota in H; try lia. exists c1, c2. split; [reflexivity|].
-  destruct (Z.eqb_spec c2 49) as [->|N1]; [|destruct (Z.eqb_spec c2 52) as [->|N2]; [|destruct (Z.eqb_spec c2 56) as [->|N3]]].
-  - destruct (Z.eqb_spec c1 67) as [->|]; [cbn; tauto|]. destruct (Z.eqb_spec c1 66) as [->|]; [cbn; tauto|].
-    cbn in H. rewrite !Bool.andb_false_r in H. cbn in H. lia.
-  - destruct (Z.eqb_spec c1 73) as [->|]; [cbn; tauto|]. destruct (Z.eqb_spec c1 85) as [->|]; [cbn; tauto|].
-    destruct (Z.eqb_spec c1 82) as [->|]; [cbn; tauto|]. destruct (Z.eqb_spec c1 88) as [->|]; [cbn; tauto|].
+  unfold mach_size. intros H. destruct t as [|c1 [|c2 [|c3 u]]]; cbv iota in H; try lia.
+  exists c1, c2. split; [reflexivity|].
+  destruct (Z.eqb_spec c2 49) as [E2|N1]; [|destruct (Z.eqb_spec c2 52) as [E2|N2]; [|destruct (Z.eqb_spec c2 56) as [E2|N3]]];
+    try subst c2.
+  - destruct (Z.eqb_spec c1 67) as [E1|]; [subst c1; cbn; tauto|]. destruct (Z.eqb_spec c1 66) as [E1|]; [subst c1; cbn; tauto|].
     cbn in H. rewrite ?Bool.andb_false_r in H. cbn in H. lia.
-  - destruct (Z.eqb_spec c1 73) as [->|]; [cbn; tauto|]. destruct (Z.eqb_spec c1 85) as [->|]; [cbn; tauto|].
-    destruct (Z.eqb_spec c1 82) as [->|]; [cbn; tauto|]. destruct (Z.eqb_spec c1 88) as [->|]; [cbn; tauto|].
+  - destruct (Z.eqb_spec c1 73) as [E1|]; [subst c1; cbn; tauto|]. destruct (Z.eqb_spec c1 85) as [E1|]; [subst c1; cbn; tauto|].
+    destruct (Z.eqb_spec c1 82) as [E1|]; [subst c1; cbn; tauto|]. destruct (Z.eqb_spec c1 88) as [E1|]; [subst c1; cbn; tauto|].
     cbn in H. rewrite ?Bool.andb_false_r in H. cbn in H. lia.
-  - cbn in H. rewrite ?Bool.andb_false_r in H. cbn in H. lia.
+  - destruct (Z.eqb_spec c1 73) as [E1|]; [subst c1; cbn; tauto|]. destruct (Z.eqb_spec c1 85) as [E1|]; [subst c1; cbn; tauto|].
+    destruct (Z.eqb_spec c1 82) as [E1|]; [subst c1; cbn; tauto|]. destruct (Z.eqb_spec c1 88) as [E1|]; [subst c1; cbn; tauto|].
+    cbn in H. rewrite ?Bool.andb_false_r in H. cbn in H. lia.
+  - rewrite ?Bool.andb_false_r in H. cbn in H. lia.
+Qed.
+
+Lemma hex_fields_range n : forall s w mx vs, hex_fields s w n mx = Ok vs -> Forall (fun v => 0 <= v <= mx) vs.
+Proof.
+  induction n as [|n IH]; intros s w mx vs H; cbn [hex_fields] in H; [inversion H; constructor|].
+  apply bind_ok in H. destruct H as (v & Hv & H). apply bind_ok in H. destruct H as (r & Hr & H). inversion H; subst.
+  constructor; [apply hex2uint_ok_range in Hv; lia|eapply IH; exact Hr].
+Qed.
+Lemma nth_bound (sz : list Z) i mx : Forall (fun v => 0 <= v <= mx) sz -> 0 <= mx -> 0 <= nth i sz 0 <= mx.
+Proof.
+  intros F Hm. revert i. induction F as [|v t Hv Ht IH]; intros [|i]; cbn [nth]; try lia. apply IH.
+Qed.
+Lemma read_file_header_sizes h : read_file_header R f = Ok h -> Forall (fun v => 0 <= v <= 255) (fh_sizes h).
+Proof.
+  unfold read_file_header. intros H. apply bind_ok in H. destruct H as (d & _ & H). unfold dec_file_header in H.
+  destruct (negb (header_tags_ok d)); [discriminate|]. destruct (_ && _); [discriminate|]. destruct (_ && _); [discriminate|].
+  apply bind_ok in H. destruct H as (sz & Hs & H). apply hex_fields_range in Hs.
+  apply bind_ok in H. destruct H as (r & _ & H). apply bind_ok in H. destruct H as (e & _ & H).
+  apply bind_ok in H. destruct H as (fr & _ & H). apply bind_ok in H. destruct H as (x & _ & H). inversion H; subst. exact Hs.
+Qed.
+
+Lemma add_bytes_first s : add_bytes R 0 s 1 = if s >? INTMAX then Err E_INVALID_DATA_TYPE else Ok s.
+Proof. unfold add_bytes. cbn [fx_dtov repaired]. rewrite Z.mul_1_r, Z.add_0_l. reflexivity. Qed.
+
+(* the outcome of ADFI_evaluate_datatype on a two-character type: the machine size is mach_size, the file size comes
+   from the header, and "sizes agree" means exactly that *)
+Lemma dt_parse_simple sz c1 c2 fu fb mb teq : In (c1, c2) simple_types -> Forall (fun v => 0 <= v <= 255) sz ->
+  dt_parse R (S (S fu)) sz 12 [c1; c2] true 0 0 0 true = Ok (fb, mb, teq) ->
+  mb = mach_size [c1; c2] /\ 0 <= fb <= 510 /\ (teq = true -> fb = mb).
+Proof.
+  intros Hin Hsz H.
+  pose proof (nth_bound sz 0 255 Hsz ltac:(lia)) as B0. pose proof (nth_bound sz 2 255 Hsz ltac:(lia)) as B2.
+  pose proof (nth_bound sz 3 255 Hsz ltac:(lia)) as B3. pose proof (nth_bound sz 4 255 Hsz ltac:(lia)) as B4.
+  pose proof (nth_bound sz 5 255 Hsz ltac:(lia)) as B5.
+  unfold simple_types in Hin. cbn [In] in Hin.
+  repeat (destruct Hin as [E|Hin]; [inversion E; subst c1 c2; clear E|]); try contradiction;
+    cbn [dt_parse tl] in H; cbv beta iota delta [nth] in H; unfold dt_sizes in H;
+    cbn [Z.eqb Pos.eqb andb orb] in H; change (0 >=? 12) with false in H; change (0 + 1 >=? 12) with false in H;
+    cbv iota in H; rewrite !add_bytes_first in H;
+    repeat match type of H with context [?x >? INTMAX] => destruct (Z.gtb_spec x INTMAX); [exfalso; unfold INTMAX in *; lia|] end;
+    cbv beta iota delta [bind] in H;
+    match goal with |- context [mach_size ?t] => let v := eval vm_compute in (mach_size t) in change (mach_size t) with v end;
+    inversion H; subst;
+    (split; [reflexivity|split; [first [lia | destruct (nth 4 sz 0); lia | destruct (nth 5 sz 0); lia]|]]); intros Ht;
+    first [reflexivity | apply Bool.andb_true_iff in Ht; destruct Ht as [_ Ht]; apply Z.eqb_eq in Ht; exact Ht].
+Qed.
+
+Lemma toS64_small x : 0 <= x < H63 -> toS64 x = x.
+Proof.
+  intros H. unfold toS64. rewrite Z.mod_small by (unfold W64, H63 in *; lia). destruct (Z.ltb_spec x H63); lia.
+Qed.
+Lemma upc_simple c1 c2 : In (c1, c2) simple_types -> map upc [c1; c2] = [c1; c2].
+Proof.
+  unfold simple_types. cbn [In]. intros H.
+  repeat (destruct H as [E|H]; [inversion E; subst; reflexivity|]). contradiction.
+Qed.
+
+(* ADF_Read_All_Data into a buffer of mach_size(type) * count bytes, the type being the one ADF_Get_Data_Type names *)
+Lemma read_all_data_safe h t cnt : 0 < mach_size t -> cnt = prod_dims h -> 0 <= cnt -> cnt * mach_size t <= DATA_CAP ->
+  0 <= nh_nchunks h -> safe (read_all_data R f h t (cnt * mach_size t)).
+Proof.
+  intros Hms Hcnt Hc0 Hcap Hnch. unfold read_all_data. cbn [fx_rtype repaired].
+  destruct (beq t (c_string (nh_dtype h) 32)) eqn:Eb; cbn [negb]; [|exact I]. apply beq_true in Eb.
+  destruct (mach_size_types t Hms) as (c1 & c2 & Et & Hin). rewrite Et in *.
+  unfold eval_dtype. rewrite <- Eb, (upc_simple _ _ Hin).
+  pose proof read_file_header_safe as HS. destruct (read_file_header R f) as [h0| | | | | | | | |] eqn:Eh; cbn [bind]; try exact HS.
+  pose proof (read_file_header_sizes _ Eh) as Hsz.
+  change 40%nat with (S (S 38)).
+  pose proof (dt_parse_safe12 (fh_sizes h0) (S (S 38)) [c1; c2] true 0 0 0 true ltac:(lia) ltac:(cbn; lia)) as HD.
+  destruct (dt_parse R (S (S 38)) (fh_sizes h0) 12 [c1; c2] true 0 0 0 true) as [[[fb mb] teq]| | | | | | | | |] eqn:Ed;
+    cbn [bind]; try exact HD.
+  apply (dt_parse_simple _ _ _ _ _ _ _ Hin Hsz) in Ed. destruct Ed as (Emb & Hfb & Hteq).
+  set (ms := mach_size [c1; c2]) in *. subst mb.
+  destruct (Z.eqb_spec fb 0) as [|Hnz]; [exact I|]. cbn [orb]. destruct (nh_ndims h =? 0); [exact I|].
+  rewrite <- Hcnt. unfold DATA_CAP in Hcap.
+  assert (Hms16 : ms <= 16).
+  { unfold ms, simple_types in *. cbn [In] in Hin. repeat (destruct Hin as [E|Hin]; [inversion E; subst; cbn; lia|]). contradiction. }
+  rewrite (toS64_small (fb * cnt)) by (unfold H63; nia).
+  destruct (nh_nchunks h =? 0) eqn:E0; [|destruct (nh_nchunks h =? 1) eqn:E1].
+  - rewrite (toS64_small (fb * cnt * ms)) by (unfold H63; nia).
+    replace (fb * cnt * ms) with (cnt * ms * fb) by ring. rewrite Z.quot_mul by lia.
+    rewrite Z.mod_small by (unfold W64; nia). destruct (Z.gtb_spec (cnt * ms) (cnt * ms)); [lia|exact I].
+  - apply bind_safe; [|intros; exact I]. apply read_data_chunk_safe. intros Hd. apply direct_teq in Hd. rewrite (Hteq Hd). lia.
+  - apply bind_safe; [apply read_dct_safe|intros tbl Ht]. apply read_dct_length in Ht; [|exact Hnch].
+    assert (Hinv : rad_inv (fb * cnt) ms fb 0 (cnt * ms)).
+    { split; [nia|]. rewrite Z.sub_0_r. replace (fb * cnt * ms) with (cnt * ms * fb) by ring. rewrite Z.div_mul by lia. lia. }
+    destruct (rad_loop_spec teq (fb * cnt) ms fb ltac:(lia) ltac:(lia) (fun E => eq_sym (Hteq E)) tbl (nh_nchunks h) (Z.to_nat (nh_nchunks h)) 0 0 (cnt * ms) []
+                ltac:(lia) ltac:(lia) Hinv) as (Hsafe & Hpost).
+    destruct (rad_loop R f teq tbl (nh_nchunks h) (Z.to_nat (nh_nchunks h)) 0 (fb * cnt) 0 ms fb (cnt * ms) [])
+      as [[[nread room] d]| | | | | | | | |] eqn:Er; cbn [bind]; try exact Hsafe.
+    destruct (Hpost _ _ _ eq_refl) as (Hn & Hq). cbn [fx_rad repaired].
+    destruct (nread <? fb * cnt); [|exact I].
+    assert (HX0 : 0 <= (fb * cnt - nread) * ms < H63) by (unfold H63; nia).
+    rewrite (toS64_small _ HX0). clear HX0.
+    assert (HX : 0 <= (fb * cnt - nread) * ms <= 510 * 65536 * 16) by nia.
+    set (X := (fb * cnt - nread) * ms) in *.
+    rewrite Z.quot_div_nonneg by lia.
+    assert (0 <= X / fb) by (apply Z.div_pos; lia).
+    assert (X / fb <= X) by (apply Z.div_le_upper_bound; nia).
+    rewrite Z.mod_small by (unfold W64; lia).
+    destruct (Z.gtb_spec (X / fb) room); [lia|exact I].
+Qed.
+
+(* ---- repair 03: link nodes *)
+Hypothesis Hlen : f_len f = Z.of_nat (length (f_bytes f)).      (* mkfile *)
+
+Lemma iter_tl_length {A} (l : list A) p : length (Pos.iter (@tl A) l p) = (length l - Pos.to_nat p)%nat.
+Proof.
+  induction p using Pos.peano_ind.
+  - simpl. destruct l; simpl; lia.
+  - rewrite Pos.iter_succ, Pos2Nat.inj_succ. destruct (Pos.iter (@tl A) l p) eqn:E; simpl in *; lia.
+Qed.
+Lemma sliceZ_length (bs : bytes) off len : 0 <= off -> 0 <= len -> off + len <= Z.of_nat (length bs) ->
+  length (sliceZ bs off len) = Z.to_nat len.
+Proof.
+  intros Ho Hl Hb. unfold sliceZ, skipZ. rewrite firstn_length. destruct off as [|p|p]; try lia.
+  rewrite iter_tl_length. lia.
+Qed.
+Lemma read_file_nonempty p len d : 1 <= len -> read_file R f p len = Ok d -> (1 <= length d)%nat.
+Proof.
+  intros Hl. unfold read_file. destruct p as [b o]. cbn [fx_short repaired andb]. destruct (_ >? BLK).
+  - destruct (Z.geb_spec ((b * BLK + o) mod W64) H63); [discriminate|]. destruct (len <? 0); [discriminate|].
+    destruct (Z.eqb_spec len 0); [lia|].
+    destruct (Z.leb_spec ((b * BLK + o) mod W64 + len) (f_len f)); [|discriminate].
+    intros HH; inversion HH; subst. rewrite sliceZ_length; try lia. apply Z.mod_pos_bound. reflexivity.
+  - destruct (Z.geb_spec ((b * BLK) mod W64) H63); [discriminate|].
+    destruct (Z.leb_spec (Z.min BLK (f_len f - (b * BLK) mod W64)) 0) as [|Hav]; [discriminate|].
+    destruct (Z.ltb_spec len 0); [lia|]. cbn [orb].
+    destruct (Z.gtb_spec (o + len) (Z.min BLK (f_len f - (b * BLK) mod W64))); [discriminate|].
+    destruct (Z.eqb_spec len 0); [lia|].
+    destruct (Z.leb_spec (o + len) (Z.min BLK (f_len f - (b * BLK) mod W64))); [|lia].
+    intros HH; inversion HH; subst.
+    assert (0 <= (b * BLK) mod W64) by (apply Z.mod_pos_bound; reflexivity).
+    destruct (Z.ltb_spec ((b * BLK) mod W64 + o) 0) as [Hneg|Hpos].
+    + unfold sliceZ, skipZ. rewrite firstn_length. destruct ((b * BLK) mod W64 + o) as [|q|q] eqn:Eo; lia.
+    + rewrite sliceZ_length; lia.
+Qed.
+
+Lemma read_data_chunk_nonempty p fb teq cb st total room site d :
+  1 <= total -> (Z.quot total fb) mod W64 <> 0 -> read_data_chunk R f p fb teq cb st total room site = Ok d -> (1 <= length d)%nat.
+Proof.
+  intros Ht Hq. unfold read_data_chunk. destruct (_ >? cb); [discriminate|]. intros H.
+  apply bind_ok in H. destruct H as ([tag e] & _ & H). destruct (negb _); [discriminate|].
+  apply bind_ok in H. destruct H as (t & _ & H). destruct (negb _); [discriminate|].
+  apply bind_ok in H. destruct H as (ds & _ & H). destruct (cb >? _); [discriminate|].
+  destruct (direct_read_ok R f teq).
+  - apply bind_ok in H. destruct H as (d' & Hd & H). destruct (total >? room); [discriminate|]. inversion H; subst.
+    eapply read_file_nonempty; [|exact Hd]. lia.
+  - destruct (_ && _); [|discriminate]. destruct (Z.eqb_spec ((Z.quot total fb) mod W64) 0); [contradiction|].
+    apply bind_ok in H. destruct H as (x & _ & H). discriminate.
+Qed.
+
+Lemma split_link_safe full capf capp : 1025 <= capf -> 4097 <= capp -> (2 <= length full)%nat ->
+  safe (split_link R full capf capp).
+Proof.
+  intros Hf1 Hp1 Hl. unfold split_link. cbn [fx_link repaired andb].
+  destruct (index_of 62 (cstr_or_all full)) as [[|k]|].
+  - destruct full as [|x [|y t]]; cbn [length] in Hl; try lia.
+    destruct (Z.gtb_spec (Z.of_nat (length (cstr_or_all (y :: t)))) 4096); [exact I|].
+    destruct (Z.gtb_spec (Z.of_nat (length (cstr_or_all (y :: t))) + 1) capp); [lia|exact I].
+  - destruct (Z.gtb_spec (Z.of_nat (S k)) 1024); cbn [orb]; [exact I|].
+    destruct (Z.gtb_spec (Z.of_nat (length (skipn (S (S k)) (cstr_or_all full)))) 4096); [exact I|].
+    destruct (Z.gtb_spec (Z.of_nat (S k) + 1) capf); [lia|]. cbn [orb].
+    destruct (Z.gtb_spec (Z.of_nat (length (skipn (S (S k)) (cstr_or_all full))) + 1) capp); [lia|exact I].
+  - destruct full as [|x [|y t]]; cbn [length] in Hl; try lia.
+    destruct (Z.gtb_spec (Z.of_nat (length (cstr_or_all (y :: t)))) 4096); [exact I|].
+    destruct (Z.gtb_spec (Z.of_nat (length (cstr_or_all (y :: t))) + 1) capp); [lia|exact I].
+Qed.
+
+Lemma toS32_small x : 0 <= x < 2147483648 -> toS32 x = x.
+Proof. intros H. unfold toS32. rewrite Z.mod_small by (unfold W32; lia). destruct (Z.ltb_spec x 2147483648); lia. Qed.
+
+(* ADF_Get_Link_Path with the caller's buffers no smaller than ADFI_chase_link's *)
+Lemma get_link_path_safe id capf capp : 1025 <= capf -> 4097 <= capp -> safe (get_link_path R f id capf capp).
+Proof.
+  intros Hf1 Hp1. unfold get_link_path. apply bind_safe; [apply read_node_header_safe|intros h _].
+  destruct (is_LK h) eqn:ELK; cbn [negb]; [|exact I]. cbn [fx_link repaired andb negb].
+  destruct ((nth 2 (nh_dtype h) 0 =? 32) || (nth 2 (nh_dtype h) 0 =? 0)) eqn:E2; cbn [negb]; [|exact I].
+  assert (Hshape : map upc (c_string (nh_dtype h) 32) = [76; 75] \/ exists w, map upc (c_string (nh_dtype h) 32) = 76 :: 75 :: 32 :: w).
+  { unfold is_LK in ELK. apply Bool.andb_true_iff in ELK. destruct ELK as [A B]. apply Z.eqb_eq in A, B.
+    apply lk_shape; [exact A|exact B|]. apply Bool.orb_true_iff in E2. destruct E2 as [E|E]; apply Z.eqb_eq in E; auto. }
+  assert (HE : safe (eval_dtype R f (nh_dtype h) 2)).
+  { unfold eval_dtype. destruct (map upc (c_string (nh_dtype h) 32)) as [|c s] eqn:Es; [exact I|].
+    apply bind_safe; [apply read_file_header_safe|intros h0 _]. change 40%nat with (S (S 38)). apply dt_parse_safe_lk.
+    destruct Hshape as [Hs|(w & Hs)]; [left; exact Hs|right; exists w; exact Hs]. }
+  destruct (eval_dtype R f (nh_dtype h) 2) as [[[fb mb] teq]| | | | | | | | |]; cbn [bind]; try exact HE.
+  destruct (nh_ndims h =? 1); cbn [negb]; [|exact I].
+  set (d0 := nth 0 (nh_dims h) 0).
+  destruct (Z.ltb_spec fb 1) as [|Hfb]; cbn [orb]; [exact I|].
+  destruct (Z.ltb_spec d0 1) as [|Hd0]; cbn [orb]; [exact I|].
+  destruct (Z.gtb_spec d0 ((LINK_BUF - 1) / fb)) as [|Hmax]; [exact I|].
+  assert (Hprod : fb * d0 <= 5121).
+  { unfold LINK_BUF in Hmax. change (5122 - 1) with 5121 in Hmax.
+    pose proof (Z.mul_div_le 5121 fb ltac:(lia)). nia. }
+  assert (Hd5 : d0 <= 5121) by nia.
+  rewrite (toS32_small d0) by lia. rewrite (toS32_small (fb * d0)) by nia.
+  pose proof (read_data_chunk_safe (nh_data h) fb teq (fb * d0) 0 (fb * d0) LINK_BUF 3 ltac:(unfold LINK_BUF; lia)) as HR.
+  destruct (read_data_chunk R f (nh_data h) fb teq (fb * d0) 0 (fb * d0) LINK_BUF 3) as [d| | | | | | | | |] eqn:Er; cbn [bind]; try exact HR.
+  destruct (Z.geb_spec d0 LINK_BUF); [unfold LINK_BUF in *; lia|].
+  apply split_link_safe; [exact Hf1|exact Hp1|].
+  apply read_data_chunk_nonempty in Er; [|nia|].
+  - rewrite app_length, firstn_length. cbn [length]. lia.
+  - replace (fb * d0) with (d0 * fb) by ring. rewrite Z.quot_mul by lia. rewrite Z.mod_small by (unfold W64; lia). lia.
+Qed.
+
+(* ---- links are chased by mutually recursive ADFI_chase_link / ADF_Get_Node_ID *)
+Lemma id_of_ptr_safe p : safe (id_of_ptr p).
+Proof. unfold id_of_ptr. destruct (_ >=? _); exact I. Qed.
+
+Lemma chase_loop_safe g : (forall x y, safe (g x y)) -> forall n id depth, safe (chase_loop R g f n id depth).
+Proof.
+  intros Hg. induction n as [|n IH]; intros id depth; cbn [chase_loop]; [exact I|].
+  apply bind_safe; [apply read_node_header_safe|intros h _]. destruct (is_LK h); [|exact I].
+  apply bind_safe; [apply get_link_path_safe; lia|intros [file path] _].
+  destruct file; [|exact I].
+  apply bind_safe; [apply Hg|intros t _].
+  apply bind_safe; [|intros t2 _; destruct (_ >? 100); [exact I|apply IH]].
+  pose proof (Hg t path) as H. destruct (g t path); try exact H. destruct (_ =? 29); exact I.
+Qed.
+
+Lemma chase_loop_post g : forall n id depth lid h, chase_loop R g f n id depth = Ok (lid, h) -> read_node_header R f lid = Ok h.
+Proof.
+  induction n as [|n IH]; intros id depth lid h H; cbn [chase_loop] in H; [discriminate|].
+  destruct (read_node_header R f id) as [h0| | | | | | | | |] eqn:E; cbn [bind] in H; try discriminate.
+  destruct (is_LK h0).
+  - apply bind_ok in H. destruct H as ([file path] & _ & H). destruct file; [|discriminate].
+    apply bind_ok in H. destruct H as (t & _ & H). apply bind_ok in H. destruct H as (t2 & _ & H).
+    destruct (_ >? 100); [discriminate|]. eapply IH; exact H.
+  - inversion H; subst. exact E.
+Qed.
+
+Lemma gni_tokens_safe chase : (forall x, safe (chase x)) -> forall toks parent cur, safe (gni_tokens R chase f toks parent cur).
+Proof.
+  intros Hc. induction toks as [|tok rest IH]; intros parent cur; cbn [gni_tokens]; [exact I|].
+  apply bind_safe; [apply check_4_child_name_safe|intros r _]. destruct r as [loc|]; [|exact I].
+  destruct rest as [|tok2 rest2]; [apply id_of_ptr_safe|].
+  apply bind_safe; [apply Hc|intros [lid hh] _]. apply IH.
+Qed.
+
+Lemma chase_at_safe g nest id : (forall x y, safe (g x y)) -> safe (chase_at R g f nest id).
+Proof. intros Hg. unfold chase_at. destruct (_ && _); [exact I|]. apply chase_loop_safe. exact Hg. Qed.
+
+Lemma get_node_id_safe : forall fuel nest pid name, safe (get_node_id R fuel f nest pid name).
+Proof.
+  induction fuel as [|fu IH]; intros nest pid name; cbn [get_node_id]; [exact I|].
+  destruct name as [|c rest]; [exact I|].
+  apply bind_safe.
+  { destruct (c =? 47); [|exact I]. apply bind_safe; [apply read_file_header_safe|intros; apply id_of_ptr_safe]. }
+  intros id0 _. destruct (_ && _); [exact I|].
+  destruct (split_slash (c :: rest)) as [|t0 ts]; [exact I|].
+  assert (Hc : forall x, safe (chase_at R (get_node_id R fu f (nest + 1)) f nest x))
+    by (intros; apply chase_at_safe; intros; apply IH).
+  apply bind_safe; [apply Hc|intros [lid hh] _]. apply gni_tokens_safe. exact Hc.
+Qed.
+
+Lemma chase_link_safe id : safe (chase_link R f id).
+Proof. unfold chase_link. apply chase_at_safe. intros. apply get_node_id_safe. Qed.
+Lemma chase_link_post id lid h : chase_link R f id = Ok (lid, h) -> read_node_header R f lid = Ok h.
+Proof.
+  unfold chase_link, chase_at. destruct (_ && _); [discriminate|]. apply chase_loop_post.
+Qed.
+
+(* ---- children *)
+Lemma children_loop_safe : forall n cur, safe (children_loop R f n cur).
+Proof.
+  induction n as [|n IH]; intros cur; cbn [children_loop]; [exact I|].
+  apply bind_safe; [apply adjust_safe|intros cur1 _]. apply bind_safe; [apply read_file_safe|intros d _].
+  apply bind_safe; [unfold dec_snt_entry; apply bind_safe; [apply dp_dec_safe; exact Hf|intros; exact I]|intros e _].
+  apply bind_safe; [apply IH|intros; exact I].
+Qed.
+Lemma children_entries_safe h imax : safe (children_entries R f h imax).
+Proof. unfold children_entries. destruct (_ =? 0); [exact I|]. apply children_loop_safe. Qed.
+Lemma ids_of_safe : forall es, safe (ids_of es).
+Proof.
+  induction es as [|e t IH]; cbn [ids_of]; [exact I|]. apply bind_safe; [apply id_of_ptr_safe|intros].
+  apply bind_safe; [exact IH|intros; exact I].
+Qed.
+Lemma is_link_safe id : safe (is_link R f id).
+Proof. unfold is_link. apply bind_safe; [apply read_node_header_safe|intros; exact I]. Qed.
+
+(* ---- what the client sees *)
+Definition ev_safe (e : ev) : Prop :=
+  match e with
+  | EvN _ r => safe r | EvK0 r => safe r | EvK r => safe r | EvL r => safe r | EvV r => safe r | EvX r => safe r
+  | EvM r => safe r | EvI r => safe r | EvG r => safe r | _ => True
+  end.
+
+Lemma Forall_app2 {A} (P : A -> Prop) l1 l2 : Forall P l1 -> Forall P l2 -> Forall P (l1 ++ l2).
+Proof. intros. apply Forall_app. split; assumption. Qed.
+
+Lemma visit_kids_safe id depth h head : Forall ev_safe head -> Forall ev_safe (fst (visit_kids R f id depth h head)).
+Proof.
+  intros Hh. unfold visit_kids. destruct (_ >? 0); [|exact Hh].
+  pose proof (children_entries_safe h (Z.min (toS32 (nh_nsub h)) KIDS_CAP)) as HC.
+  destruct (children_entries R f h (Z.min (toS32 (nh_nsub h)) KIDS_CAP)) as [es| | | | | | | | |]; cbn [fst];
+    try solve [apply Forall_app2; [exact Hh|constructor; [exact HC|constructor]]].
+  apply Forall_app2; [exact Hh|]. constructor; [exact I|]. constructor; [apply ids_of_safe|constructor].
+Qed.
+
+Lemma prod_pos : forall l acc, 0 <= acc -> forallb (fun d => (0 <? d) && (d <=? DATA_CAP)) l = true -> 0 <= fold_left Z.mul l acc.
+Proof.
+  induction l as [|d t IH]; intros acc Ha H; cbn [fold_left]; [exact Ha|].
+  cbn [forallb] in H. apply Bool.andb_true_iff in H. destruct H as [Hd Ht]. apply Bool.andb_true_iff in Hd. destruct Hd as [Hd _].
+  apply Z.ltb_lt in Hd. apply IH; [nia|exact Ht].
+Qed.
+
+Lemma visit_chased_safe id depth pre : Forall ev_safe pre -> Forall ev_safe (fst (visit_chased R f id depth pre)).
+Proof.
+  intros Hp. unfold visit_chased.
+  pose proof (chase_link_safe id) as HC. pose proof (chase_link_post id) as HP.
+  destruct (chase_link R f id) as [[lid h]| | | | | | | | |]; cbn [fst];
+    try solve [apply Forall_app2; [exact Hp|constructor; [exact HC|constructor]]].
+  specialize (HP lid h eq_refl). apply read_node_header_post in HP. destruct HP as (_ & _ & _ & _ & Hnch).
+  assert (Hpre2 : Forall ev_safe (pre ++ [EvL (Ok (c_string (nh_label h) 32)); EvT (c_string (nh_dtype h) 2); EvD (nh_ndims h)]))
+    by (apply Forall_app2; [exact Hp|repeat constructor]).
+  cbn [fx_dim repaired andb].
+  destruct ((nh_ndims h >? 0) && negb (forallb (fun d => d <? H63) (firstn (Z.to_nat (nh_ndims h)) (nh_dims h)))); cbn [fst].
+  - apply Forall_app2; [exact Hpre2|repeat constructor].
+  - set (head := (pre ++ _) ++ _ ++ _).
+    assert (Hhead : Forall ev_safe head).
+    { unfold head. apply Forall_app2; [exact Hpre2|]. apply Forall_app2; [destruct (_ >? 0); repeat constructor|repeat constructor]. }
+    destruct ((mach_size (c_string (nh_dtype h) 2) >? 0) && (nh_ndims h >? 0) &&
+              forallb (fun d => (0 <? d) && (d <=? DATA_CAP)) (firstn (Z.to_nat (nh_ndims h)) (nh_dims h)) &&
+              (prod_dims h * mach_size (c_string (nh_dtype h) 2) <=? DATA_CAP)) eqn:Ew; [|apply visit_kids_safe; exact Hhead].
+    apply Bool.andb_true_iff in Ew. destruct Ew as [Ew E4]. apply Bool.andb_true_iff in Ew. destruct Ew as [Ew E3].
+    apply Bool.andb_true_iff in Ew. destruct Ew as [E1 E2]. apply Z.gtb_lt in E1. apply Z.leb_le in E4.
+    assert (Hcnt : 0 <= prod_dims h) by (unfold prod_dims; apply prod_pos; [lia|exact E3]).
+    pose proof (read_all_data_safe h (c_string (nh_dtype h) 2) (prod_dims h) E1 eq_refl Hcnt E4 ltac:(lia)) as HX.
+    set (r := match read_all_data R f h (c_string (nh_dtype h) 2) (prod_dims h * mach_size (c_string (nh_dtype h) 2)) with
+              | Ok (w, d) => Ok (w, d ++ repeat 0 (Z.to_nat (prod_dims h * mach_size (c_string (nh_dtype h) 2)) - length d))
+              | r => r end).
+    assert (Hr : safe r).
+    { unfold r. destruct (read_all_data R f h _ _) as [[w d]| | | | | | | | |]; exact HX. }
+    destruct (clean r); [apply visit_kids_safe|cbn [fst]]; (apply Forall_app2; [exact Hhead|constructor; [exact Hr|constructor]]).
+Qed.
+
+Lemma visit_safe id depth : Forall ev_safe (fst (visit R f id depth)).
+Proof.
+  unfold visit.
+  set (rn := (h <- read_node_header R f id ;; Ok (c_string (nh_name h) 32))).
+  assert (Hrn : safe rn) by (unfold rn; apply bind_safe; [apply read_node_header_safe|intros; exact I]).
+  destruct rn as [nm| | | | | | | | |] eqn:En; cbn [fst]; try solve [constructor; [exact Hrn|constructor]].
+  pose proof (is_link_safe id) as HK0.
+  destruct (is_link R f id) as [len| | | | | | | | |] eqn:Ek0; cbn [fst]; try solve [repeat constructor; assumption].
+  destruct (len >? 0).
+  - pose proof (get_link_path_safe id 5200 5200 ltac:(lia) ltac:(lia)) as HK.
+    destruct (get_link_path R f id 5200 5200) as [[file path]| | | | | | | | |] eqn:Ek; cbn [fst]; try solve [repeat constructor; assumption].
+    destruct file; [apply visit_chased_safe|cbn [fst]]; repeat constructor; assumption.
+  - apply visit_chased_safe. repeat constructor; assumption.
+Qed.
+
+Lemma walk_loop_safe : forall fuel stack, Forall ev_safe (walk_loop R fuel f stack).
+Proof.
+  induction fuel as [|fu IH]; intros stack; destruct stack as [|[[pid nm] d] rest]; cbn [walk_loop]; try constructor; try exact I.
+  - constructor.
+  - pose proof (get_node_id_safe (S LINK_FUEL) 0 pid nm) as HG. unfold get_node_id_top.
+    destruct (get_node_id R (S LINK_FUEL) f 0 pid nm) as [cid| e | | | | | | | |] eqn:Eg; cbn [clean];
+      try solve [constructor; [exact HG|constructor]].
+    + pose proof (visit_safe cid d) as HV. destruct (visit R f cid d) as [evs k]. cbn [fst] in HV.
+      destruct k as [kids|]; constructor; try exact I; [apply Forall_app2; [exact HV|apply IH]|exact HV].
+    + constructor; [exact I|apply IH].
+Qed.
+End SafeFile.
+
+(* ---- ADF_Database_Open (repair 05) establishes what the lemmas above assume about the open file *)
+Lemma fmt_letter_lt x : fmt_letter x = true -> x < 128.
+Proof.
+  unfold fmt_letter. intros H. repeat (apply Bool.orb_true_iff in H; destruct H as [H|H]); apply Z.eqb_eq in H; lia.
+Qed.
+
+Lemma dec_file_header_safe0 a d : safe (dec_file_header R a d).
+Proof.
+  unfold dec_file_header. destruct (negb _); [exact I|]. cbn [fx_fmt repaired andb negb].
+  destruct (fmt_letter (fa_fmt a)) eqn:F; cbn [andb negb]; [|exact I]. destruct (os_letter (fa_os a)); cbn [negb]; [|exact I].
+  apply fmt_letter_lt in F.
+  apply bind_safe; [apply hex_fields_safe|intros]. repeat (apply bind_safe; [apply dp_dec_safe; exact F|intros]). exact I.
+Qed.
+
+Lemma database_open_safe bs : safe (database_open R bs).
+Proof.
+  unfold database_open, read_file_header.
+  apply bind_safe; [apply bind_safe; [apply read_file_safe|intros; apply dec_file_header_safe0]|intros h _].
+  apply bind_safe; [destruct (_ =? 66); [exact I|destruct (_ =? 65); exact I]|intros old _].
+  destruct (_ =? 62); [exact I|]. apply bind_safe; [apply hex2uint_safe|intros minor _].
+  destruct (_ >? 2); [exact I|]. apply bind_safe; [apply id_of_ptr_safe|intros root _].
+  destruct (_ =? 78); [destruct (beq _ _); exact I|exact I].
+Qed.
+
+Lemma nth_firstn_lt {A} (d : A) : forall n i (l : list A), (i < n)%nat -> nth i (firstn n l) d = nth i l d.
+Proof.
+  induction n as [|n IH]; intros i l H; [lia|]. destruct l as [|x l]; [destruct i; reflexivity|].
+  destruct i as [|i]; [reflexivity|]. cbn [firstn nth]. apply IH. lia.
+Qed.
+
+Lemma read_header_bytes c f d : read_file c f (0, 0) 186 = Ok d -> d = firstn 186 (f_bytes f) /\ 186 <= f_len f.
+Proof.
+  unfold read_file. change ((186 + 0) mod W64 >? BLK) with false. cbv iota.
+  change ((0 * BLK) mod W64) with 0. change (0 >=? H63) with false. cbv iota. rewrite Z.sub_0_r.
+  destruct (Z.leb_spec (Z.min BLK (f_len f)) 0); [discriminate|].
+  change (186 <? 0) with false. cbn [orb]. change (0 + 186) with 186.
+  destruct (Z.gtb_spec 186 (Z.min BLK (f_len f))) as [G|G].
+  - rewrite Bool.andb_true_r. destruct (fx_short c); [discriminate|]. change (186 =? 0) with false. cbv iota.
+    destruct (Z.leb_spec 186 (Z.min BLK (f_len f))); [lia|discriminate].
+  - rewrite Bool.andb_false_r. change (186 =? 0) with false. cbv iota.
+    destruct (Z.leb_spec 186 (Z.min BLK (f_len f))); [|discriminate].
+    intros HH; inversion HH; subst. split; [reflexivity|lia].
+Qed.
+
+Lemma database_open_post bs f root : database_open R bs = Ok (f, root) ->
+  fa_fmt (f_attr f) < 128 /\ f_len f = Z.of_nat (length (f_bytes f)).
+Proof.
+  unfold database_open. intros H. apply bind_ok in H. destruct H as (h & Hh & H).
+  apply bind_ok in H. destruct H as (old & _ & H). destruct (_ =? 62); [discriminate|].
+  apply bind_ok in H. destruct H as (minor & _ & H). destruct (_ >? 2); [discriminate|].
+  apply bind_ok in H. destruct H as (rt & _ & H).
+  assert (Hfmt : fh_fmt h < 128).
+  { unfold read_file_header in Hh. apply bind_ok in Hh. destruct Hh as (d & Hd & Hh).
+    apply read_header_bytes in Hd. destruct Hd as (Ed & Hl). cbn [mkfile f_bytes f_len] in Ed, Hl.
+    unfold dec_file_header in Hh. destruct (negb (header_tags_ok d)); [discriminate|]. cbn [fx_fmt repaired andb negb] in Hh.
+    cbn [mkfile f_attr] in Hh.
+    destruct (fmt_letter (fa_fmt (open_attr bs))) eqn:F; cbn [andb negb] in Hh; [|discriminate].
+    destruct (os_letter (fa_os (open_attr bs))); cbn [negb] in Hh; [|discriminate].
+    apply bind_ok in Hh. destruct Hh as (sz & _ & Hh). apply bind_ok in Hh. destruct Hh as (r & _ & Hh).
+    apply bind_ok in Hh. destruct Hh as (e & _ & Hh). apply bind_ok in Hh. destruct Hh as (fr & _ & Hh).
+    apply bind_ok in Hh. destruct Hh as (x & _ & Hh). inversion Hh; subst h. cbn [fh_fmt].
+    apply fmt_letter_lt in F. unfold open_attr in F.
+    destruct (Z.leb_spec 102 (Z.of_nat (length bs))); [|lia]. cbn [fa_fmt] in F.
+    rewrite Ed, nth_firstn_lt by lia. exact F. }
+  destruct (fh_fmt h =? 78); [destruct (beq _ _); [|discriminate]|]; inversion H; subst; cbn; split; (exact Hfmt || reflexivity).
+Qed.
+
+Definition walk_safe (r : walk_result) : Prop :=
+  match r with WOpenFail o => safe o | WOk _ evs => Forall ev_safe evs end.
+
+(* C13_no_oob: with the repairs, opening and walking ANY byte string yields no out-of-bounds store or load, no read of
+   an unwritten or stale byte, no failed assert and no signed overflow -- whatever the fuel *)
+Theorem walk_repaired_safe bs fuel : walk_safe (walk R fuel bs).
+Proof.
+  unfold walk. pose proof (database_open_safe bs) as HS. pose proof (database_open_post bs) as HP.
+  destruct (database_open R bs) as [[f root]| | | | | | | | |]; cbn [walk_safe bind]; try exact HS; try exact I.
+  destruct (HP f root eq_refl) as (Hf & Hlen).
+  pose proof (visit_safe f Hf Hlen root 0) as HV. destruct (visit R f root 0) as [evs k]. cbn [fst] in HV.
+  destruct k as [kids|]; [apply Forall_app2; [exact HV|apply walk_loop_safe; assumption]|exact HV].
+Qed.
+
+(* the single operations, for an open file *)
+Theorem ops_repaired_safe bs f root : database_open R bs = Ok (f, root) ->
+  (forall id name, safe (check_4_child_name R f id name)) /\ (forall id name, safe (get_node_id_top R f id name)) /\
+  (forall id, safe (chase_link R f id)) /\ (forall id, safe (get_link_path R f id 1025 4097)) /\
+  (forall id, safe (read_node_header R f id)) /\
+  (forall h t, 0 < mach_size t -> 0 <= prod_dims h -> prod_dims h * mach_size t <= DATA_CAP -> 0 <= nh_nchunks h ->
+               safe (read_all_data R f h t (prod_dims h * mach_size t))).
+Proof.
+  intros H. apply database_open_post in H. destruct H as (Hf & Hlen). repeat split; intros.
+  - apply check_4_child_name_safe; assumption.
+  - apply get_node_id_safe; assumption.
+  - apply chase_link_safe; assumption.
+  - apply get_link_path_safe; try assumption; lia.
+  - apply read_node_header_safe; assumption.
+  - apply read_all_data_safe; auto.
+Qed.
+
+(* ================================================================ 7. repair 04: the nesting of link chasing is bounded by the code,
+   not by the fuel of the model: beyond 101 - nest units the fuel does not matter *)
+Lemma chase_loop_ext g1 g2 f : (forall x y, g1 x y = g2 x y) -> forall n id depth, chase_loop R g1 f n id depth = chase_loop R g2 f n id depth.
+Proof.
+  intros Hg. induction n as [|n IH]; intros id depth; cbn [chase_loop]; [reflexivity|].
+  destruct (read_node_header R f id); cbn [bind]; try reflexivity. destruct (is_LK _); [|reflexivity].
+  destruct (get_link_path R f id 1025 4097) as [[file path]| | | | | | | | |]; cbn [bind]; try reflexivity.
+  destruct file; [|reflexivity]. rewrite (Hg id [47]). destruct (g2 id [47]); cbn [bind]; try reflexivity.
+  rewrite (Hg _ path). destruct (g2 _ path); cbn [bind]; try reflexivity.
+  - destruct (_ >? 100); [reflexivity|apply IH].
+  - destruct (_ =? 29); reflexivity.
+Qed.
+Lemma gni_tokens_ext c1 c2 f : (forall x, c1 x = c2 x) -> forall toks parent cur, gni_tokens R c1 f toks parent cur = gni_tokens R c2 f toks parent cur.
+Proof.
+  intros Hc. induction toks as [|tok rest IH]; intros parent cur; cbn [gni_tokens]; [reflexivity|].
+  destruct (check_4_child_name R f parent tok) as [[loc|]| | | | | | | | |]; cbn [bind]; try reflexivity.
+  destruct rest; [reflexivity|]. rewrite Hc. destruct (c2 _) as [[lid hh]| | | | | | | | |]; cbn [bind]; try reflexivity. apply IH.
+Qed.
+
+Theorem link_fuel_irrelevant f : forall fuel1 fuel2 nest pid name,
+  nest <= 100 -> 101 <= Z.of_nat fuel1 + nest -> 101 <= Z.of_nat fuel2 + nest ->
+  get_node_id R fuel1 f nest pid name = get_node_id R fuel2 f nest pid name.
+Proof.
+  induction fuel1 as [|fu1 IH]; intros fuel2 nest pid name Hn H1 H2; [cbn in H1; lia|].
+  destruct fuel2 as [|fu2]; [cbn in H2; lia|]. cbn [get_node_id].
+  destruct name as [|c rest]; [reflexivity|].
+  destruct (if c =? 47 then _ else _) as [id0| | | | | | | | |]; cbn [bind]; try reflexivity.
+  destruct (_ && _); [reflexivity|]. destruct (split_slash (c :: rest)) as [|t0 ts]; [reflexivity|].
+  assert (Hc : forall x, chase_at R (get_node_id R fu1 f (nest + 1)) f nest x = chase_at R (get_node_id R fu2 f (nest + 1)) f nest x).
+  { intros x. unfold chase_at. cbn [fx_nest repaired andb]. destruct (Z.geb_spec nest 100) as [G|G]; [reflexivity|].
+    apply chase_loop_ext. intros a b. apply IH; lia. }
+  rewrite Hc. destruct (chase_at R (get_node_id R fu2 f (nest + 1)) f nest id0) as [[lid hh]| | | | | | | | |]; cbn [bind]; try reflexivity.
+  apply gni_tokens_ext. exact Hc.
+Qed.
+
+(* ADF_Get_Node_ID / ADFI_chase_link as the API calls them: any fuel from 101 (resp. 100) on gives the same answer *)
+Corollary link_recursion_bounded f pid name id : forall fuel, (101 <= fuel)%nat ->
+  get_node_id R fuel f 0 pid name = get_node_id_top R f pid name /\
+  chase_at R (get_node_id R (pred fuel) f 1) f 0 id = chase_link R f id.
+Proof.
+  intros fuel Hfu. split.
+  - unfold get_node_id_top. apply link_fuel_irrelevant; unfold LINK_FUEL; lia.
+  - unfold chase_link, chase_at. cbn [fx_nest repaired andb]. change (0 >=? 100) with false. cbv iota.
+    apply chase_loop_ext. intros a b. apply link_fuel_irrelevant; unfold LINK_FUEL; lia.
+Qed.
+
+(* ================================================================ 8. termination of the open-time operations (both states) *)
+Definition nofuel {A} (r : out A) : Prop := match r with OutOfFuel => False | _ => True end.
+Lemma bind_nofuel {A B} (x : out A) (f : A -> out B) : nofuel x -> (forall a, nofuel (f a)) -> nofuel (bind x f).
+Proof. destruct x; simpl; auto. Qed.
+Lemma hex2uint_nofuel mn mx s : nofuel (hex2uint mn mx s).
+Proof. destruct (hex2uint_total mn mx s) as [(v & ->)|(e & ->)]; exact I. Qed.
+Lemma conv_int_nofuel fmt s : nofuel (conv_int fmt s).
+Proof.
+  unfold conv_int, conv_mode. destruct (fmt =? 78); [exact I|]. destruct (fmt =? 76); [exact I|]. destruct (fmt >=? 128); [exact I|].
+  destruct ((fmt =? 66) || (fmt =? 67)); exact I.
+Qed.
+Lemma dp_dec_nofuel a s : nofuel (dp_dec a s).
+Proof.
+  unfold dp_dec, dp_from_hex. destruct (fa_old a).
+  - apply bind_nofuel; [apply hex2uint_nofuel|intros]. apply bind_nofuel; [apply hex2uint_nofuel|intros; exact I].
+  - apply bind_nofuel; [apply conv_int_nofuel|intros]. apply bind_nofuel; [apply conv_int_nofuel|intros; exact I].
+Qed.
+Lemma read_file_nofuel c f p len : nofuel (read_file c f p len).
+Proof.
+  unfold read_file. destruct p as [b o]. destruct (_ >? BLK).
+  - destruct (_ >=? _); [exact I|]. destruct (_ <? 0); [exact I|]. destruct (_ =? _); [exact I|]. destruct (_ <=? _); exact I.
+  - destruct (_ >=? _); [exact I|]. destruct (_ <=? 0); [exact I|]. destruct (_ && _); [exact I|]. destruct (_ <? 0); [exact I|].
+    destruct (_ =? _); [exact I|]. destruct (_ <=? _); exact I.
+Qed.
+Lemma hex_fields_nofuel n : forall s w mx, nofuel (hex_fields s w n mx).
+Proof.
+  induction n; intros; simpl; [exact I|]. apply bind_nofuel; [apply hex2uint_nofuel|intros].
+  apply bind_nofuel; [apply IHn|intros; exact I].
+Qed.
+Lemma dec_file_header_nofuel c a d : nofuel (dec_file_header c a d).
+Proof.
+  unfold dec_file_header. destruct (negb _); [exact I|]. destruct (_ && _); [exact I|]. destruct (_ && _); [exact I|].
+  apply bind_nofuel; [apply hex_fields_nofuel|intros]. repeat (apply bind_nofuel; [apply dp_dec_nofuel|intros]). exact I.
+Qed.
+
+(* cgio_check_file (ADF branch) is a pure function of the first 32 bytes; ADF_Database_Open performs a fixed
+   number of reads and decodes and no loop driven by file content: on EVERY byte string it returns one of the
+   other outcomes, never OutOfFuel -- before and after the repairs *)
+Theorem database_open_terminates c bs : nofuel (database_open c bs).
+Proof.
+  unfold database_open, read_file_header.
+  apply bind_nofuel; [apply bind_nofuel; [apply read_file_nofuel|intros; apply dec_file_header_nofuel]|intros h].
+  apply bind_nofuel; [destruct (_ =? 66); [exact I|destruct (_ =? 65); exact I]|intros old].
+  destruct (_ =? 62); [exact I|]. apply bind_nofuel; [apply hex2uint_nofuel|intros minor].
+  destruct (_ >? 2); [exact I|]. apply bind_nofuel; [unfold id_of_ptr; destruct (_ >=? _); exact I|intros root].
+  destruct (_ =? 78); [destruct (beq _ _); exact I|exact I].
 Qed.
